@@ -7,6 +7,9 @@ From RPFT Require Import Base.Sexp Base.PyStr Base.PyStrFacts Base.SexpEq Base.R
      Comp.Refine Comp.RefineFacts Comp.RefineStore Comp.WeakSim.
 Import ListNotations.
 
+Section WithNames.
+Context {GN : GenNames}.
+
 (* ---------------------------------------------------------------- lists *)
 Lemma number_from_nth {X} (l : list X) i0 i : nth_error (number_from i0 l) i = option_map (fun x => (i0 + i, x)) (nth_error l i).
 Proof.
@@ -59,24 +62,6 @@ Proof. unfold xid. intros H. injection H as H. apply Nat2N.inj, H. Qed.
 
 Lemma to_node_uuid k n : n_uuid (to_node k n) = nid k.
 Proof. unfold to_node. destruct (rn_dec n); reflexivity. Qed.
-
-Lemma ref_nth sr k n : nth_error (s_nodes sr) k = Some n -> nth_error (f_nodes (to_flow sr)) k = Some (to_node k n).
-Proof. intros H. unfold to_flow. cbn. rewrite nth_error_map, number_from_nth, H. reflexivity. Qed.
-
-Lemma ref_length sr : length (f_nodes (to_flow sr)) = length (s_nodes sr).
-Proof. unfold to_flow. cbn. rewrite map_length, number_from_length. reflexivity. Qed.
-
-Lemma ref_node_index sr k : k < length (s_nodes sr) -> node_index (to_flow sr) (nid k) = Some k.
-Proof.
-  intros Hk. unfold node_index, to_flow. cbn.
-  assert (G : forall (l : list rnode) i0 j, j < length l ->
-            find_idx (fun nd => str_eqb (n_uuid nd) (nid (i0 + j))) (map (fun kn => to_node (fst kn) (snd kn)) (number_from i0 l)) = Some j).
-  { induction l as [|a r IH]; intros i0 j Hj; cbn in *; [lia|]. rewrite to_node_uuid. destruct j as [|j].
-    - rewrite Nat.add_0_r, str_eqb_refl. reflexivity.
-    - destruct (str_eqb (nid i0) (nid (i0 + S j))) eqn:E; [apply str_eqb_eq, nid_inj in E; lia|].
-      replace (i0 + S j) with (S i0 + j) by lia. rewrite IH by lia. reflexivity. }
-  apply (G (s_nodes sr) 0 k Hk).
-Qed.
 
 (* ---------------------------------------------------------------- what a flow does at a node *)
 Lemma lts_act F i nd pc u p :
@@ -282,6 +267,34 @@ Proof.
   destruct (default_idx _ _ _ _ Hs) as [I1 I2]. eapply cat_name_match; eauto.
 Qed.
 
+
+(* ---------------------------------------------------------------- random splits *)
+Definition ref_random k (d : rdec) : router := RRandom (ref_cats k (rd_cats d)) (rd_result d).
+Definition comp_random (r : crandom) : router := RRandom (map render_cat (rr_cats r)) (render_result (rr_result r)).
+
+Lemma to_node_rand k n d : rn_dec n = Some d -> rd_random d = true ->
+  n_exits (to_node k n) = ref_exits k (rd_cats d) /\ n_router (to_node k n) = Some (ref_random k d).
+Proof. intros H1 H2. unfold to_node. rewrite H1. cbn. unfold all_cats. rewrite H2. split; reflexivity. Qed.
+
+Lemma render_rand nd r : cn_body nd = BRandom r ->
+  n_exits (render_node nd) = map (fun c => render_exit (cc_exit c)) (rr_cats r) /\ n_router (render_node nd) = Some (comp_random r).
+Proof. intros H. unfold render_node. rewrite H. split; reflexivity. Qed.
+
+Lemma bucket_name_match phi uu ix c : bucket_sim phi uu ix c -> smatch (name_sexp (cname_str (fst (snd ix)))) (name_sexp (cc_name c)) = true.
+Proof.
+  intros [Hn _]. destruct (fst (snd ix)) as [s|]; cbn in *.
+  - destruct Hn as [-> _]. apply smatch_refl.
+  - reflexivity.
+Qed.
+
+Lemma rand_sig_match phi uu k d r : rand_sim phi uu d r -> smatch (router_sig (ref_random k d)) (router_sig (comp_random r)) = true.
+Proof.
+  intros [H1 H2 H3 H4]. unfold ref_random, comp_random, router_sig.
+  apply smatch_list. constructor; [reflexivity|]. constructor; [rewrite H2; apply smatch_refl|]. constructor; [|constructor].
+  apply smatch_list. unfold ref_cats. rewrite !map_map. cbn [c_name render_cat]. apply Forall2_map2.
+  eapply Forall2_impl; [|exact H3]. intros ix c Hb. eapply bucket_name_match; eauto.
+Qed.
+
 (* ---------------------------------------------------------------- the two flows at the end of the run *)
 Section Final.
 Variable fresh : nat -> id.
@@ -296,8 +309,52 @@ Hypothesis Hidx : Forall2 (fun i nd => nth_error (cs_nodes sc) i = Some nd) idxs
 Hypothesis Hcover : forall i, i < length (cs_nodes sc) -> In i idxs.
 Hypothesis Hnodup : NoDup (map cn_uuid nds).
 
+(* the reference flow lists its nodes in sheet order *)
+Variable ridxs : list nat.
+Hypothesis Hrorder : node_order sr = ridxs.
+Hypothesis Hrbound : forall k, In k ridxs -> k < length (s_nodes sr).
+Hypothesis Hrcover : forall k, k < length (s_nodes sr) -> In k ridxs.
+Hypothesis Hrnodup : NoDup ridxs.
+
 Let R := to_flow sr.
 Let N := length (s_nodes sr).
+
+Lemma ref_nodes : Forall2 (fun k nd => exists n, nth_error (s_nodes sr) k = Some n /\ nd = to_node k n) ridxs (f_nodes R).
+Proof.
+  unfold R, to_flow. cbn [f_nodes]. rewrite Hrorder. clear Hrorder Hrcover Hrnodup.
+  induction ridxs as [|k l IH]; cbn; [constructor|].
+  assert (Hk : k < length (s_nodes sr)) by (apply Hrbound; left; reflexivity).
+  destruct (nth_error (s_nodes sr) k) as [n|] eqn:E; [|apply nth_error_None in E; lia].
+  cbn. constructor; [exists n; auto|]. apply IH. intros k0 H0. apply Hrbound. right. exact H0.
+Qed.
+
+Lemma ref_nth q k n : nth_error ridxs q = Some k -> nth_error (s_nodes sr) k = Some n -> nth_error (f_nodes R) q = Some (to_node k n).
+Proof.
+  intros Hq Hk. destruct (Forall2_nth _ _ _ _ _ ref_nodes Hq) as (nd & Hnd & n' & Hn' & ->). rewrite Hnd. congruence.
+Qed.
+
+Lemma ref_length : length (f_nodes R) = length ridxs.
+Proof. symmetry. apply (Forall2_length' _ _ _ ref_nodes). Qed.
+
+Lemma ref_uuids_nodup : NoDup (map (n_uuid : node -> str) (f_nodes R)).
+Proof.
+  assert (G : forall l l', Forall2 (fun k nd => exists n, nth_error (s_nodes sr) k = Some n /\ nd = to_node k n) l l' ->
+                           map (n_uuid : node -> str) l' = map nid l).
+  { intros l l' H. induction H as [|k nd l l' Hk _ IH]; cbn; [reflexivity|].
+    destruct Hk as (n & _ & ->). rewrite to_node_uuid, IH. reflexivity. }
+  rewrite (G _ _ ref_nodes). generalize Hrnodup. generalize ridxs. clear. intros l H. induction H as [|x l Hx _ IH]; cbn; [constructor|]. constructor; [|exact IH].
+  intros Hin. apply in_map_iff in Hin as (y & E & Hy). apply nid_inj in E. subst y. contradiction.
+Qed.
+
+Lemma ref_node_index q k : nth_error ridxs q = Some k -> node_index R (nid k) = Some q.
+Proof.
+  intros Hq. destruct (Forall2_nth _ _ _ _ _ ref_nodes Hq) as (nd & Hnd & n & Hn & ->). unfold node_index.
+  rewrite <- (to_node_uuid k n). apply (find_idx_key n_uuid (f_nodes R) q (to_node k n)); [|exact Hnd].
+  exact ref_uuids_nodup.
+Qed.
+
+Lemma rpos_exists k : k < length (s_nodes sr) -> exists q, nth_error ridxs q = Some k.
+Proof. intros H. apply In_nth_error, Hrcover, H. Qed.
 
 Lemma pos_exists i : i < length (cs_nodes sc) -> exists p, nth_error idxs p = Some i.
 Proof. intros H. apply In_nth_error, Hcover, H. Qed.
@@ -318,12 +375,12 @@ Qed.
 
 (* states of the reference flow against states of the compiled flow *)
 Inductive Rel : state -> state -> Prop :=
-| Rel_node k n c p pc :
-    nth_error (s_nodes sr) k = Some n -> nth_error phi k = Some c -> nth_error idxs p = Some (fst c) ->
-    pc <= length (rn_actions n) -> Rel (k, pc) (p, pc)
-| Rel_router k n k1 j p :
-    nth_error (s_nodes sr) k = Some n -> nth_error phi k = Some (k1, Some j) -> nth_error idxs p = Some j ->
-    Rel (k, length (rn_actions n)) (p, 0)
+| Rel_node k n c q p pc :
+    nth_error (s_nodes sr) k = Some n -> nth_error phi k = Some c -> nth_error ridxs q = Some k -> nth_error idxs p = Some (fst c) ->
+    pc <= length (rn_actions n) -> Rel (q, pc) (p, pc)
+| Rel_router k n k1 j q p :
+    nth_error (s_nodes sr) k = Some n -> nth_error phi k = Some (k1, Some j) -> nth_error ridxs q = Some k -> nth_error idxs p = Some j ->
+    Rel (q, length (rn_actions n)) (p, 0)
 | Rel_end : Rel (end_state R) (end_state F).
 
 Lemma ref_in_range k c : nth_error phi k = Some c -> exists n, nth_error (s_nodes sr) k = Some n.
@@ -344,7 +401,8 @@ Proof.
     unfold cuu in Hu. rewrite nth_error_map in Hu. destruct (nth_error (cs_nodes sc) (fst c)) as [x|] eqn:Ex; [|discriminate]. injection Hu as <-.
     destruct (pos_exists (fst c)) as (p & Hp); [apply nth_error_Some; congruence|].
     unfold dest_state. rewrite (comp_node_index p (fst c) x Hp Ex).
-    unfold R. rewrite ref_node_index by (apply nth_error_Some; congruence).
+    destruct (rpos_exists k) as (q & Hq); [apply nth_error_Some; congruence|].
+    rewrite (ref_node_index q k Hq).
     eapply Rel_node; eauto. lia.
 Qed.
 
@@ -430,6 +488,49 @@ Qed.
 Lemma StOK_cat_xid k1 x cls r : nth_error (cs_nodes sc) k1 = Some x -> cn_body x = BSwitch cls r -> NoDup (map cat_xid (sw_all_cats r)).
 Proof. intros H1 H2. destruct (StOK_switch fresh GP _ _ _ _ _ Hst H1 H2) as [[_ Hnd _] _ _]. exact Hnd. Qed.
 
+
+Lemma rand_branches_rel k n x d r :
+  rn_dec n = Some d -> cn_body x = BRandom r -> rand_sim phi (cuu sc) d r -> NoDup (map cat_xid (rr_cats r)) ->
+  Forall2 (fun a b => fst a = fst b /\ Rel (snd a) (snd b))
+          (router_branches R (to_node k n) (ref_random k d)) (router_branches F (render_node x) (comp_random r)).
+Proof.
+  intros Hdec Hb Hs Hx. destruct (to_node_rand k n d Hdec (rs_random _ _ _ _ Hs)) as [He _].
+  destruct (render_rand x r Hb) as [Hce _].
+  unfold ref_random, comp_random, router_branches.
+  assert (G : forall i0 l l', Forall2 (fun (a : nat * category) (b : ccat) => Rel (Flow.cat_dest R (to_node k n) (ref_cats k (rd_cats d)) (c_uuid (snd a)))
+                                                                    (Flow.cat_dest F (render_node x) (map render_cat (rr_cats r)) (cc_uuid b))) (number_from i0 l) l' ->
+            Forall2 (fun a b => fst a = fst b /\ Rel (snd a) (snd b))
+                    (map (fun ic : nat * category => (b_bucket (fst ic), Flow.cat_dest R (to_node k n) (ref_cats k (rd_cats d)) (c_uuid (snd ic)))) (number_from i0 l))
+                    (map (fun ic : nat * category => (b_bucket (fst ic), Flow.cat_dest F (render_node x) (map render_cat (rr_cats r)) (c_uuid (snd ic)))) (number_from i0 (map render_cat l')))).
+  { intros i0 l. revert i0. induction l as [|a l IH]; intros i0 l' H; cbn [number_from] in H; inversion H as [|? b ? l1 Hab Hl]; subst; cbn [number_from map]; constructor; [|apply IH, Hl].
+    cbn [fst snd]. split; [reflexivity|exact Hab]. }
+  apply G. unfold ref_cats. clear G.
+  (* position by position *)
+  pose proof (rs_cats _ _ _ _ Hs) as H3.
+  assert (Hpos : forall i a c, nth_error (rd_cats d) i = Some a -> nth_error (rr_cats r) i = Some c ->
+              Rel (Flow.cat_dest R (to_node k n) (ref_cats k (rd_cats d)) (cid k i)) (Flow.cat_dest F (render_node x) (map render_cat (rr_cats r)) (cc_uuid c))).
+  { intros i a c Ha Hc. unfold Flow.cat_dest.
+    rewrite (ref_cat_find k _ i a Ha). cbn [c_exit]. rewrite He, (ref_exit_find k _ i a Ha). cbn [e_dest].
+    rewrite (comp_cat_find _ i c (rs_uuids _ _ _ _ Hs) Hc). cbn [c_exit render_cat]. rewrite Hce.
+    change (x_uuid (cc_exit c)) with (cat_xid c). rewrite (comp_exit_find _ i c Hx Hc). cbn [e_dest render_exit].
+    apply dest_rel. assert (Hn : nth_error (number_from 0 (rd_cats d)) i = Some (i, a)) by (rewrite number_from_nth, Ha; reflexivity).
+    destruct (Forall2_nth _ _ _ _ _ H3 Hn) as (c' & Hc' & Hac). assert (c' = c) by congruence. subst c'. apply Hac. }
+  assert (G2 : forall i0 (l : list (cname * dest)) l', (forall j a c, nth_error l j = Some a -> nth_error l' j = Some c ->
+                   Rel (Flow.cat_dest R (to_node k n) (ref_cats k (rd_cats d)) (cid k (i0 + j))) (Flow.cat_dest F (render_node x) (map render_cat (rr_cats r)) (cc_uuid c))) ->
+               length l = length l' ->
+               Forall2 (fun (a : nat * category) (b : ccat) => Rel (Flow.cat_dest R (to_node k n) (ref_cats k (rd_cats d)) (c_uuid (snd a)))
+                                                                    (Flow.cat_dest F (render_node x) (map render_cat (rr_cats r)) (cc_uuid b)))
+                       (number_from i0 (map (fun ic : nat * (cname * dest) => mkCat (cid k (fst ic)) (cname_str (fst (snd ic))) (xid k (fst ic))) (number_from i0 l))) l').
+  { intros i0 l. revert i0. induction l as [|a l IH]; intros i0 [|c l'] Hj Hlen; cbn in Hlen; try discriminate; cbn [number_from map]; constructor.
+    - cbn [snd c_uuid fst]. specialize (Hj 0 a c eq_refl eq_refl). rewrite Nat.add_0_r in Hj. exact Hj.
+    - apply IH; [|lia]. intros j a' c' Ha' Hc'. specialize (Hj (S j) a' c' Ha' Hc'). replace (S i0 + j) with (i0 + S j) by lia. exact Hj. }
+  apply G2; [intros j a c Ha Hc; apply (Hpos j a c Ha Hc)|].
+  rewrite <- (Forall2_length' _ _ _ H3). symmetry. clear. generalize 0. induction (rd_cats d) as [|a l IH]; intros i; cbn; [reflexivity|]. rewrite IH. reflexivity.
+Qed.
+
+Lemma StOK_rand_xid k1 x r : nth_error (cs_nodes sc) k1 = Some x -> cn_body x = BRandom r -> NoDup (map cat_xid (rr_cats r)).
+Proof. intros H1 H2. destruct (StOK_random fresh GP _ _ _ _ Hst H1 H2) as [_ Hnd _]. exact Hnd. Qed.
+
 (* ---------------------------------------------------------------- the weak simulations *)
 Definition lmf (a b : sexp) : bool := smatch a b.
 Definition lmb (a b : sexp) : bool := smatch b a.
@@ -447,28 +548,28 @@ Qed.
 
 Lemma fwd_sim a b : Rel a b -> wsim_at sexp state state (lts_of_flow R) (lts_of_flow F) lmf Rel a b.
 Proof.
-  intros H. unfold wsim_at. destruct H as [k n c p pc Hk Hc Hp Hpc|k n k1 j p Hk Hc Hp|].
+  intros H. unfold wsim_at. destruct H as [k n c q p pc Hk Hc Hq Hp Hpc|k n k1 j q p Hk Hc Hq Hp|].
   - destruct (cluster_view k n c Hk Hc) as (nd & o & Hcl & Hns).
     assert (Hnd : nth_error (cs_nodes sc) (fst c) = Some nd).
     { unfold cluster_nodes in Hcl. destruct (nth_error (cs_nodes sc) (fst c)) as [y|]; [|discriminate].
       destruct (snd c) as [j|]; [destruct (nth_error (cs_nodes sc) j); [|discriminate]|]; injection Hcl as <- _; reflexivity. }
-    pose proof (ref_nth sr k n Hk) as Hrn. pose proof (comp_nth p (fst c) nd Hp Hnd) as Hcn.
+    pose proof (ref_nth q k n Hq Hk) as Hrn. pose proof (comp_nth p (fst c) nd Hp Hnd) as Hcn.
     assert (Hact : map snd (cn_actions nd) = rn_actions n) by (destruct Hns; assumption).
     pose proof (comp_actions_nth nd n pc Hact) as Hca.
     destruct (nth_error (rn_actions n) pc) as [pl|] eqn:Epl.
     + (* an action *)
       destruct Hca as (u & Hu).
-      rewrite (lts_act R k (to_node k n) pc [5%N; N.of_nat k; N.of_nat pc] pl Hrn) by (rewrite ref_actions_nth, Epl; reflexivity).
+      rewrite (lts_act R q (to_node k n) pc [5%N; N.of_nat k; N.of_nat pc] pl Hrn) by (rewrite ref_actions_nth, Epl; reflexivity).
       exists (p, pc), pl, (p, S pc). split; [apply taus_refl|]. split; [apply (lts_act F p _ pc u pl Hcn); rewrite render_node_actions; exact Hu|].
       split; [apply smatch_refl|]. eapply Rel_node; eauto. apply nth_error_Some. congruence.
     + (* past the actions *)
       assert (Epc : pc = length (rn_actions n)) by (apply nth_error_None in Epl; lia). subst pc.
-      rewrite (lts_tail R k (to_node k n) _ Hrn) by (rewrite ref_actions_nth, Epl; reflexivity).
+      rewrite (lts_tail R q (to_node k n) _ Hrn) by (rewrite ref_actions_nth, Epl; reflexivity).
       assert (Hct : lts_of_flow F (p, length (rn_actions n)) = match n_router (render_node nd) with
                       | None => match n_exits (render_node nd) with [e] => KTau (dest_state F (e_dest e)) | _ => KBad end
                       | Some r => KDec (router_sig r) (router_branches F (render_node nd) r) end)
         by (apply (lts_tail F p _ _ Hcn); rewrite render_node_actions; exact Hca).
-      destruct Hns as [n nd e Hdec Hb _ Hcont|n nd cls r d Hdec Hb _ Hds Hsh|n nd e nr r d Hdec Hb _ Hdest Hnes Hbr Har Hds Hpl].
+      destruct Hns as [n nd e Hdec Hb _ Hcont|n nd cls r d Hdec Hb _ Hds Hsh|n nd r d Hdec Hb _ Hrs|n nd e nr r d Hdec Hb _ Hdest Hnes Hbr Har Hds Hpl].
       * destruct (to_node_basic k n Hdec) as [E1 E2]. rewrite E1, E2. destruct (render_basic nd e Hb) as [E3 E4]. rewrite E3, E4 in Hct.
         exists (dest_state F (e_dest (render_exit e))). split; [eapply taus_step; [exact Hct|apply taus_refl]|]. cbn. apply dest_rel, Hcont.
       * destruct (to_node_dec k n d Hdec (ds_random _ _ _ _ Hds)) as [E1 E2]. rewrite E2.
@@ -476,6 +577,12 @@ Proof.
         exists (p, length (rn_actions n)), (router_sig (comp_router r)), (router_branches F (render_node nd) (comp_router r)).
         split; [apply taus_refl|]. split; [exact Hct|]. split; [apply sig_match with (phi := phi) (uu := cuu sc); exact Hds|].
         apply branches_fwd. apply (branches_rel k n nd cls d r Hdec Hb Hds). eapply (StOK_cat_xid (fst c) nd cls r); eauto.
+      * (* a random split *)
+        destruct (to_node_rand k n d Hdec (rs_random _ _ _ _ Hrs)) as [E1 E2]. rewrite E2.
+        destruct (render_rand nd r Hb) as [E3 E4]. rewrite E4 in Hct.
+        exists (p, length (rn_actions n)), (router_sig (comp_random r)), (router_branches F (render_node nd) (comp_random r)).
+        split; [apply taus_refl|]. split; [exact Hct|]. split; [apply rand_sig_match with (phi := phi) (uu := cuu sc); exact Hrs|].
+        apply branches_fwd. apply (rand_branches_rel k n nd d r Hdec Hb Hrs). eapply (StOK_rand_xid (fst c) nd r); eauto.
       * (* the implicit router: one silent step on the compiled side *)
         destruct (to_node_dec k n d Hdec (ds_random _ _ _ _ Hds)) as [E1 E2]. rewrite E2.
         destruct (render_basic nd e Hb) as [E3 E4]. rewrite E3, E4 in Hct.
@@ -496,9 +603,9 @@ Proof.
     destruct (cluster_view k n _ Hk Hc) as (nd & o & Hcl & Hns).
     unfold cluster_nodes in Hcl. cbn in Hcl. destruct (nth_error (cs_nodes sc) k1) as [y|] eqn:Ey; [|discriminate].
     destruct (nth_error (cs_nodes sc) j) as [nr|] eqn:Enr; [|discriminate]. injection Hcl as <- <-.
-    inversion Hns as [| |? ? e nr0 r d Hdec Hb _ Hdest Hnes Hbr Har Hds Hpl]; subst.
-    pose proof (ref_nth sr k n Hk) as Hrn. pose proof (comp_nth p j nr Hp Enr) as Hcnr.
-    rewrite (lts_tail R k (to_node k n) _ Hrn) by (rewrite ref_actions_nth; assert (E : nth_error (rn_actions n) (length (rn_actions n)) = None) by (apply nth_error_None; lia); rewrite E; reflexivity).
+    inversion Hns as [| | |? ? e nr0 r d Hdec Hb _ Hdest Hnes Hbr Har Hds Hpl]; subst.
+    pose proof (ref_nth q k n Hq Hk) as Hrn. pose proof (comp_nth p j nr Hp Enr) as Hcnr.
+    rewrite (lts_tail R q (to_node k n) _ Hrn) by (rewrite ref_actions_nth; assert (E : nth_error (rn_actions n) (length (rn_actions n)) = None) by (apply nth_error_None; lia); rewrite E; reflexivity).
     destruct (to_node_dec k n d Hdec (ds_random _ _ _ _ Hds)) as [E1 E2]. rewrite E2.
     destruct (render_switch nr SPlain r Hbr) as [E5 E6].
     exists (p, 0), (router_sig (comp_router r)), (router_branches F (render_node nr) (comp_router r)).
@@ -511,53 +618,58 @@ Qed.
 
 Lemma bwd_sim b a : Rel a b -> wsim_at sexp state state (lts_of_flow F) (lts_of_flow R) lmb (fun b' a' => Rel a' b') b a.
 Proof.
-  intros H. unfold wsim_at. destruct H as [k n c p pc Hk Hc Hp Hpc|k n k1 j p Hk Hc Hp|].
+  intros H. unfold wsim_at. destruct H as [k n c q p pc Hk Hc Hq Hp Hpc|k n k1 j q p Hk Hc Hq Hp|].
   - destruct (cluster_view k n c Hk Hc) as (nd & o & Hcl & Hns).
     assert (Hnd : nth_error (cs_nodes sc) (fst c) = Some nd).
     { unfold cluster_nodes in Hcl. destruct (nth_error (cs_nodes sc) (fst c)) as [y|]; [|discriminate].
       destruct (snd c) as [j|]; [destruct (nth_error (cs_nodes sc) j); [|discriminate]|]; injection Hcl as <- _; reflexivity. }
-    pose proof (ref_nth sr k n Hk) as Hrn. pose proof (comp_nth p (fst c) nd Hp Hnd) as Hcn.
+    pose proof (ref_nth q k n Hq Hk) as Hrn. pose proof (comp_nth p (fst c) nd Hp Hnd) as Hcn.
     assert (Hact : map snd (cn_actions nd) = rn_actions n) by (destruct Hns; assumption).
     pose proof (comp_actions_nth nd n pc Hact) as Hca.
     destruct (nth_error (rn_actions n) pc) as [pl|] eqn:Epl.
     + destruct Hca as (u & Hu).
       rewrite (lts_act F p _ pc u pl Hcn) by (rewrite render_node_actions; exact Hu).
-      exists (k, pc), pl, (k, S pc). split; [apply taus_refl|].
-      split; [apply (lts_act R k (to_node k n) pc [5%N; N.of_nat k; N.of_nat pc] pl Hrn); rewrite ref_actions_nth, Epl; reflexivity|].
+      exists (q, pc), pl, (q, S pc). split; [apply taus_refl|].
+      split; [apply (lts_act R q (to_node k n) pc [5%N; N.of_nat k; N.of_nat pc] pl Hrn); rewrite ref_actions_nth, Epl; reflexivity|].
       split; [apply smatch_refl|]. eapply Rel_node; eauto. apply nth_error_Some. congruence.
     + assert (Epc : pc = length (rn_actions n)) by (apply nth_error_None in Epl; lia). subst pc.
       rewrite (lts_tail F p _ _ Hcn) by (rewrite render_node_actions; exact Hca).
-      assert (Hrt : lts_of_flow R (k, length (rn_actions n)) = match n_router (to_node k n) with
+      assert (Hrt : lts_of_flow R (q, length (rn_actions n)) = match n_router (to_node k n) with
                       | None => match n_exits (to_node k n) with [e] => KTau (dest_state R (e_dest e)) | _ => KBad end
                       | Some r => KDec (router_sig r) (router_branches R (to_node k n) r) end)
-        by (apply (lts_tail R k _ _ Hrn); rewrite ref_actions_nth, Epl; reflexivity).
-      destruct Hns as [n nd e Hdec Hb _ Hcont|n nd cls r d Hdec Hb _ Hds Hsh|n nd e nr r d Hdec Hb _ Hdest Hnes Hbr Har Hds Hpl].
+        by (apply (lts_tail R q _ _ Hrn); rewrite ref_actions_nth, Epl; reflexivity).
+      destruct Hns as [n nd e Hdec Hb _ Hcont|n nd cls r d Hdec Hb _ Hds Hsh|n nd r d Hdec Hb _ Hrs|n nd e nr r d Hdec Hb _ Hdest Hnes Hbr Har Hds Hpl].
       * destruct (to_node_basic k n Hdec) as [E1 E2]. rewrite E1, E2 in Hrt. destruct (render_basic nd e Hb) as [E3 E4]. rewrite E3, E4.
         exists (dest_state R (dest_id (rn_cont n))). split; [eapply taus_step; [exact Hrt|apply taus_refl]|]. cbn. apply dest_rel, Hcont.
       * destruct (to_node_dec k n d Hdec (ds_random _ _ _ _ Hds)) as [E1 E2]. rewrite E2 in Hrt.
         destruct (render_switch nd cls r Hb) as [E3 E4]. rewrite E4.
-        exists (k, length (rn_actions n)), (router_sig (ref_router k d)), (router_branches R (to_node k n) (ref_router k d)).
+        exists (q, length (rn_actions n)), (router_sig (ref_router k d)), (router_branches R (to_node k n) (ref_router k d)).
         split; [apply taus_refl|]. split; [exact Hrt|]. split; [unfold lmb; apply sig_match with (phi := phi) (uu := cuu sc); exact Hds|].
         apply branches_bwd. apply (branches_rel k n nd cls d r Hdec Hb Hds). eapply (StOK_cat_xid (fst c) nd cls r); eauto.
+      * destruct (to_node_rand k n d Hdec (rs_random _ _ _ _ Hrs)) as [E1 E2]. rewrite E2 in Hrt.
+        destruct (render_rand nd r Hb) as [E3 E4]. rewrite E4.
+        exists (q, length (rn_actions n)), (router_sig (ref_random k d)), (router_branches R (to_node k n) (ref_random k d)).
+        split; [apply taus_refl|]. split; [exact Hrt|]. split; [unfold lmb; apply rand_sig_match with (phi := phi) (uu := cuu sc); exact Hrs|].
+        apply branches_bwd. apply (rand_branches_rel k n nd d r Hdec Hb Hrs). eapply (StOK_rand_xid (fst c) nd r); eauto.
       * destruct (render_basic nd e Hb) as [E3 E4]. rewrite E3, E4.
         unfold cluster_nodes in Hcl. rewrite Hnd in Hcl. destruct (snd c) as [j|] eqn:Ej; [|discriminate].
         destruct (nth_error (cs_nodes sc) j) as [nr'|] eqn:Enr; [|discriminate]. injection Hcl as ->.
         destruct (pos_exists j) as (pj & Hpj); [apply nth_error_Some; congruence|].
         assert (Hd1 : dest_state F (e_dest (render_exit e)) = (pj, 0)).
         { cbn. rewrite Hdest. cbn. rewrite (str_eqb_neq _ _ Hnes). unfold dest_state. rewrite (comp_node_index pj j nr Hpj Enr). reflexivity. }
-        exists (k, length (rn_actions n)). split; [apply taus_refl|]. rewrite Hd1.
-        eapply (Rel_router k n (fst c) j pj); eauto. rewrite Hc. destruct c as [c1 c2]. cbn in Ej. subst c2. reflexivity.
+        exists (q, length (rn_actions n)). split; [apply taus_refl|]. rewrite Hd1.
+        eapply (Rel_router k n (fst c) j q pj); eauto. rewrite Hc. destruct c as [c1 c2]. cbn in Ej. subst c2. reflexivity.
   - destruct (cluster_view k n _ Hk Hc) as (nd & o & Hcl & Hns).
     unfold cluster_nodes in Hcl. cbn in Hcl. destruct (nth_error (cs_nodes sc) k1) as [y|] eqn:Ey; [|discriminate].
     destruct (nth_error (cs_nodes sc) j) as [nr|] eqn:Enr; [|discriminate]. injection Hcl as <- <-.
-    inversion Hns as [| |? ? e nr0 r d Hdec Hb _ Hdest Hnes Hbr Har Hds Hpl]; subst.
-    pose proof (ref_nth sr k n Hk) as Hrn. pose proof (comp_nth p j nr Hp Enr) as Hcnr.
+    inversion Hns as [| | |? ? e nr0 r d Hdec Hb _ Hdest Hnes Hbr Har Hds Hpl]; subst.
+    pose proof (ref_nth q k n Hq Hk) as Hrn. pose proof (comp_nth p j nr Hp Enr) as Hcnr.
     rewrite (lts_tail F p _ 0 Hcnr) by (rewrite render_node_actions, Har; reflexivity).
     destruct (render_switch nr SPlain r Hbr) as [E5 E6]. rewrite E6.
     destruct (to_node_dec k n d Hdec (ds_random _ _ _ _ Hds)) as [E1 E2].
-    exists (k, length (rn_actions n)), (router_sig (ref_router k d)), (router_branches R (to_node k n) (ref_router k d)).
+    exists (q, length (rn_actions n)), (router_sig (ref_router k d)), (router_branches R (to_node k n) (ref_router k d)).
     split; [apply taus_refl|]. split.
-    + rewrite (lts_tail R k (to_node k n) _ Hrn) by (rewrite ref_actions_nth; assert (E : nth_error (rn_actions n) (length (rn_actions n)) = None) by (apply nth_error_None; lia); rewrite E; reflexivity).
+    + rewrite (lts_tail R q (to_node k n) _ Hrn) by (rewrite ref_actions_nth; assert (E : nth_error (rn_actions n) (length (rn_actions n)) = None) by (apply nth_error_None; lia); rewrite E; reflexivity).
       rewrite E2. reflexivity.
     + split; [unfold lmb; apply sig_match with (phi := phi) (uu := cuu sc); exact Hds|].
       apply branches_bwd. apply (branches_rel k n nr SPlain d r Hdec Hbr Hds). eapply (StOK_cat_xid j nr SPlain r); eauto.
@@ -574,3 +686,4 @@ Proof.
   - eapply (wsim_traces sexp state state (lts_of_flow F) (lts_of_flow R) lmb (fun b' a' => Rel a' b') bwd_sim); eauto.
 Qed.
 End Final.
+End WithNames.
